@@ -879,6 +879,11 @@ impl<'a> Evaluator<'a> {
                         };
                         Ok(Val::Int { v: if input { v } else { wrapped }, input })
                     }
+                    // a character cast to an integer type is its code point (truncated to u8 for `as u8`)
+                    Val::Char(ch) if ["u8", "u16", "u32", "u64", "u128", "usize", "i32", "i64", "i128", "isize"].contains(&ty.as_str()) => {
+                        Ok(Val::int(if ty == "u8" { (ch as u32 as u8) as i128 } else { ch as u32 as i128 }))
+                    }
+                    Val::Bool(b) if ["u8", "u16", "u32", "u64", "u128", "usize", "i32", "i64", "i128", "isize"].contains(&ty.as_str()) => Ok(Val::int(b as i128)),
                     o => Ok(o),
                 }
             }
@@ -1391,6 +1396,36 @@ impl<'a> Evaluator<'a> {
                     _ => Err("iterator place lost".into()),
                 }
             }
+            // an in-place method on a sub-slice of a list held in a place (`v[..n].sort_by_key(..)`, `v[a..b].reverse()`): the method is
+            // run on a temporary holding the sub-slice, which is then written back
+            Expr::MethodCall(mc) if ["sort", "sort_unstable", "sort_by", "sort_by_key", "sort_unstable_by", "sort_unstable_by_key", "reverse", "swap", "fill"].contains(&mc.method.to_string().as_str())
+                && matches!(&*mc.receiver, Expr::Index(ix) if matches!(&*ix.index, Expr::Range(_)) && self.place_of(&ix.expr).is_some()) =>
+            {
+                let Expr::Index(ix) = &*mc.receiver else { unreachable!() };
+                let Expr::Range(r) = &*ix.index else { unreachable!() };
+                let place = self.place_of(&ix.expr).unwrap();
+                let Val::List(full) = self.eval(&ix.expr, env)? else { return Err(format!("slice of {}", tok(&ix.expr))) };
+                let int = |v: Val| match v { Val::Int { v, .. } if v >= 0 => Ok(v as usize), o => Err(format!("slice bound {}", o.show())) };
+                let lo = match &r.start { Some(e) => int(self.eval(e, env)?)?, None => 0 };
+                let hi = match &r.end { Some(e) => int(self.eval(e, env)?)? + if matches!(r.limits, syn::RangeLimits::Closed(_)) { 1 } else { 0 }, None => full.len() };
+                if lo > hi || hi > full.len() {
+                    return Err(format!("slice {}..{} of a list of {} (the code would panic here)", lo, hi, full.len()));
+                }
+                env.insert("__slice_tmp".into(), Val::List(full[lo..hi].to_vec()));
+                let mut call = mc.clone();
+                call.receiver = Box::new(syn::parse_quote!(__slice_tmp));
+                let r2 = self.eval(&Expr::MethodCall(call), env);
+                let sub = env.remove("__slice_tmp");
+                let out = r2?;
+                if let (Some(Val::List(sub)), Some(Val::List(l))) = (sub, place_get_mut(env, &place)) {
+                    if sub.len() == hi - lo && hi <= l.len() {
+                        for (k, v) in sub.into_iter().enumerate() {
+                            l[lo + k] = v;
+                        }
+                    }
+                }
+                Ok(out)
+            }
             // an iterator held in a variable is consumed by `next()`
             Expr::MethodCall(mc) if mc.method == "next" && mc.args.is_empty() && matches!(&*mc.receiver, Expr::Path(p) if p.path.segments.len() == 1)
                 && matches!(self.eval(&mc.receiver, env), Ok(Val::List(_))) =>
@@ -1433,7 +1468,7 @@ impl<'a> Evaluator<'a> {
                 *target = Val::List(sorted.into_iter().map(|(_, it)| it).collect());
                 Ok(Val::Unit)
             }
-            Expr::MethodCall(mc) if ["push", "append", "append_all", "extend", "insert", "remove", "push_str", "clear", "truncate", "pop", "sort", "sort_unstable", "reverse", "retain", "dedup", "swap", "drain"].contains(&mc.method.to_string().as_str())
+            Expr::MethodCall(mc) if ["push", "append", "append_all", "extend", "insert", "remove", "push_str", "clear", "truncate", "pop", "pop_front", "pop_back", "push_back", "push_front", "sort", "sort_unstable", "reverse", "retain", "dedup", "swap", "drain"].contains(&mc.method.to_string().as_str())
                 && self.place_of(&mc.receiver).is_some()
                 && matches!(self.eval(&mc.receiver, env), Ok(Val::List(_)) | Ok(Val::Str(_))) =>
             {
@@ -1445,8 +1480,12 @@ impl<'a> Evaluator<'a> {
                 }
                 let target = place_get_mut(env, &place).ok_or_else(|| format!("cannot resolve place {}", tok(&mc.receiver)))?;
                 match (target, name.as_str()) {
-                    (Val::List(l), "push") => {
+                    (Val::List(l), "push") | (Val::List(l), "push_back") => {
                         l.push(args.into_iter().next().unwrap_or(Val::Unit));
+                        Ok(Val::Unit)
+                    }
+                    (Val::List(l), "push_front") => {
+                        l.insert(0, args.into_iter().next().unwrap_or(Val::Unit));
                         Ok(Val::Unit)
                     }
                     (Val::List(l), "append") | (Val::List(l), "extend") => match args.into_iter().next() {
@@ -1468,7 +1507,8 @@ impl<'a> Evaluator<'a> {
                         Some(Val::Int { v, .. }) if (*v as usize) < l.len() => Ok(l.remove(*v as usize)),
                         _ => Err("remove: bad arguments".into()),
                     },
-                    (Val::List(l), "pop") => Ok(l.pop().map(Val::some).unwrap_or(Val::none())),
+                    (Val::List(l), "pop") | (Val::List(l), "pop_back") => Ok(l.pop().map(Val::some).unwrap_or(Val::none())),
+                    (Val::List(l), "pop_front") => Ok(if l.is_empty() { Val::none() } else { Val::some(l.remove(0)) }),
                     (Val::List(l), "clear") => {
                         l.clear();
                         Ok(Val::Unit)
@@ -1755,6 +1795,25 @@ impl<'a> Evaluator<'a> {
                             let r = if name == "max" { it.max() } else { it.min() };
                             return Ok(r.map(|v| Val::some(Val::int(v))).unwrap_or(Val::none()));
                         }
+                        // the first maximum is kept by min_by_key, the last by max_by_key (std semantics)
+                        "max_by_key" | "min_by_key" if mc.args.len() == 1 => {
+                            let mut best: Option<(Val, Val)> = None;
+                            for it in items {
+                                let k = self.apply_closure(&mc.args[0], &[it.clone()], env)?;
+                                best = Some(match best {
+                                    None => (k, it.clone()),
+                                    Some((bk, bv)) => {
+                                        let ord = cmp_vals(&k, &bk).ok_or_else(|| format!("{}: keys {} / {} are not comparable", name, k.show(), bk.show()))?;
+                                        let take = if name == "max_by_key" { ord != std::cmp::Ordering::Less } else { ord == std::cmp::Ordering::Less };
+                                        if take { (k, it.clone()) } else { (bk, bv) }
+                                    }
+                                });
+                            }
+                            return Ok(best.map(|(_, v)| Val::some(v)).unwrap_or(Val::none()));
+                        }
+                        // an ordered map given as its list of (key, value) pairs
+                        "first_key_value" if mc.args.is_empty() => return Ok(items.first().cloned().map(Val::some).unwrap_or(Val::none())),
+                        "last_key_value" if mc.args.is_empty() => return Ok(items.last().cloned().map(Val::some).unwrap_or(Val::none())),
                         "any" | "all" => {
                             let mut acc = name == "all";
                             for it in items {
